@@ -46,7 +46,8 @@ class C11(Check):
                     {"name": name, "idx": 0, "fault": "none", "follow": "version", "k": 0}, None,
                     {"reply": r[0], "exc": r[1]}, {"errorcode": "0/1"}, "nominal"))
             ex = w.exchanges()
-            self.nominal[name] = {"n": len(ex),
+            own_opens = sum(1 for e in w.log if e[0] == "open") - 1      # minus make_protocol's connect
+            self.nominal[name] = {"n": len(ex), "opens": max(0, own_opens),
                                   "kinds": [dialogues.classify_exchange(name, e[2]) for e in ex]}
         # what "the full bring-up checks" are on this tree: the exchanges of the real
         # initialize_device against a device that is already in the signer (must at least ask
@@ -82,6 +83,10 @@ class C11(Check):
         for name, nom in self.nominal.items():
             for idx in range(nom["n"]):
                 cs.append({"name": name, "idx": idx})
+            # commands that re-open the connection themselves (the UI heartbeat leaves and re-enters
+            # the signer): each of their own getDongle calls failing
+            for j in range(1, nom.get("opens", 0) + 1):
+                cs.append({"name": name, "idx": 0, "inner_open": j})
         return cs
 
     def req_of(self, name):
@@ -91,7 +96,7 @@ class C11(Check):
             return {"command": "version"}
         return self.reqs[name]
 
-    def history(self, name, idx, fault, follow, k, second=None):
+    def history(self, name, idx, fault, follow, k, second=None, inner_open=None):
         """returns (world, [(reply, exc)], [log slices])"""
         v1 = name.startswith("v1-")
         dev = dialogues.configure(PowHsm(seed=b"c11"), name)
@@ -111,7 +116,10 @@ class C11(Check):
             return None
         w.inject = inject
         replies, slices = [], []
+        if inner_open is not None:
+            w.fail_open_at = w.opens_seen + inner_open
         o = harness.handle_line(proto, json.dumps(self.req_of(name)).encode())
+        w.fail_open_at = None
         replies.append((o.reply, o.exc))
         slices.append(w.log[base:])
         armed["on"] = False
@@ -144,6 +152,11 @@ class C11(Check):
         v1 = name.startswith("v1-")
         if case.get("fault") == "none":
             return [v for v in self.pre_violations if v.d["case"]["name"] == name]
+        if case.get("inner_open"):
+            follows = self.follow1 if v1 else self.follow5
+            for f in follows:
+                self.inner(name, case["inner_open"], f, stats, vs)
+            return vs
         if case.get("second"):
             self.second(name, idx, case["fault"], case["follow"], case["second"][0], case["second"][1],
                         stats, vs)
@@ -165,6 +178,48 @@ class C11(Check):
                     for kind2 in ("timeout", "write", "read"):
                         self.second(name, idx, fault, follows[0], j, kind2, stats, vs)
         return vs
+
+    def inner(self, name, j, f, stats, vs):
+        """the j-th getDongle call the command makes itself fails: device-error code, the manager
+        keeps running, and the next request repairs the connection (open, full bring-up) before
+        its own APDUs"""
+        v1 = name.startswith("v1-")
+        derr = -2 if v1 else -905
+        drain = "v1-getPubKey" if v1 else "getPubKey"
+        stats.evaluations += 1
+        w, replies, slices = self.history(name, None, None, [f, drain], 0, inner_open=j)
+        codes = [r[0].get("errorcode") if isinstance(r[0], dict) else None for r in replies]
+        stats.observe((name, "inner-open", j, f, tuple(codes), tuple(r[1] for r in replies),
+                       w.device.mode == MODE_SIGNER), nontrivial=True)
+        case = {"name": name, "idx": 0, "inner_open": j, "follow": f}
+
+        def viol(clause, observed, expected):
+            vs.append(Violation("C11", "C11:%s:%s:own-open-%d" % (clause, name, j), case, None,
+                                observed, expected, clause))
+        if replies[0][1] is not None:
+            viol("failed-reconnect-stops-manager", {"exc": replies[0][1], "reply": replies[0][0]},
+                 {"errorcode": derr})
+            return
+        if codes[0] != derr:
+            viol("failed-reconnect-code", {"reply": replies[0][0]}, {"errorcode": derr})
+            return
+        if w.device.mode != MODE_SIGNER:
+            stats.dont_care += 1       # the device was left in another application: the bring-up decides
+            return
+        if f.startswith("version"):
+            i = 2
+        else:
+            i = 1
+        ent = [(e[0], e[2][1] if e[0] == "x" else None) for e in slices[i]]
+        opens = [n for n, e in enumerate(ent) if e[0] == "open"]
+        if not opens or any(e[0] == "x" for e in ent[:opens[0]]):
+            viol("repair-not-retried", {"log": ent[:8], "reply": replies[i][0], "exc": replies[i][1]},
+                 "getDongle() and the full bring-up before any command APDU")
+            return
+        after = [e[1] for e in ent[opens[0] + 1:opens[0] + 1 + len(BRINGUP)]]
+        if after != BRINGUP or replies[i][1] is not None or codes[i] not in (0, 1):
+            viol("repair-retry-incomplete", {"apdus_after_open": after, "reply": replies[i][0],
+                                             "exc": replies[i][1]}, {"apdus_after_open": BRINGUP})
 
     def second(self, name, idx, fault, f, j, kind2, stats, vs):
         """link failure, then a fault at exchange j of the repair's bring-up: that request gets
